@@ -10,6 +10,7 @@ import json
 import os
 
 from .. import clih, common, refpipe
+from .. import pairwise, routing
 
 PROP = "C10"
 MOD = "vf.checks.c10"
@@ -210,6 +211,11 @@ def shards(tier):
     for i in range(0, len(pmasks), chunk):
         out.append(dict(kind="pe", masks=pmasks[i:i + chunk], tier=tier))
     out.append(dict(kind="fasta", masks=[m for m in masks if m % 16 == 5][:60], tier=tier))
+    # every pair of entries of the option universe of vf.pairwise (other parameter values, filters and outputs next to the
+    # modifications): what is written must be the read after the documented steps
+    npw = pairwise.count()
+    for part in range(16):
+        out.append(dict(kind="pairwise", idx=list(range(part, npw, 16)), tier=tier, masks=[]))
     return out
 
 
@@ -223,9 +229,35 @@ def orders_for(names, tier):
     return [list(names), list(reversed(names)), rot]
 
 
+_PW = {}
+
+
+def run_pairwise_shard(d, res):
+    V = res["viol"]
+    if "c" not in _PW:
+        r1 = routing.corpus()
+        _PW["c"] = (r1, routing.mate_corpus(r1))
+    r1, r2 = _PW["c"]
+    wd = clih.fresh_dir("c10pw")
+    for k in d["idx"]:
+        sc = pairwise.get(k)
+        out = pairwise.run(sc, r1, r2, wd)
+        res["runs"] += 1
+        res["evals"] += len(r1) * (2 if sc["layout"] != "single" else 1)
+        res["nontrivial"] += len(r1) - out["stats"]["categories"].get("('discard',)", 0)
+        for kind, what, detail in out["violations"]:
+            if kind in ("content", "unit", "cli"):
+                V.append((kind, what, dict(options=sc["label"], layout=sc["layout"],
+                                           argv=[a for a in out["stats"]["argv"] if not a.startswith("/")], **detail)))
+    clih.rmtree(wd)
+    return res
+
+
 def run_shard(d):
     res = dict(evals=0, runs=0, nontrivial=0, viol=common.Viols(cap=3), samples=[], order_sensitive=0)
     V = res["viol"]
+    if d["kind"] == "pairwise":
+        return run_pairwise_shard(d, res)
     recs, _ = build_corpus()
     paired = d["kind"] == "pe"
     menu = MENU_PE if paired else MENU_SE
@@ -338,7 +370,8 @@ def run(tier):
     return R.finish(tot.get("evals", 0), tot.get("nontrivial", 0),
                     "operation sequences = every subset of 13 single-end / 14 paired-end read-modifying options x command-line orders (all "
                     "permutations of subsets up to size 3 (thorough 4), else documented/reversed/rotated) x every corpus read; "
-                    "non-trivial = the reference changes the read",
+                    "plus every PAIR of entries of a universe of 53 option settings (vf/pairwise.py: other parameter values, filters, outputs) "
+                    "on the 300-read routing corpus; non-trivial = the reference changes the read",
                     True, extra=dict(cli_runs=tot.get("runs", 0)))
 
 
@@ -347,6 +380,9 @@ def replay(path):
         v = json.load(f)
     print(json.dumps(v, indent=1))
     c = v["case"]
+    if "layout" in c:  # pairwise family: replay by re-running the quick tier
+        import sys
+        return common.replay_by_rerun(sys.modules[__name__], PROP, path)
     wd = clih.fresh_dir("c10r")
     if "read" not in c:
         return 1
